@@ -402,21 +402,28 @@ class Repo:
                 return None
             return [x.arg for x in a.args], ex
 
-        def stmt_helper(callee: Optional[FuncInfo]):
+        def stmt_helper(callee: Optional[FuncInfo], allow_return_value: bool):
+            """(params, body) of a private helper whose statements can stand in for a call statement."""
             if not private(callee):
                 return None
-            if callee is None or callee.kind != "method":
+            if callee is None or callee.kind not in ("method", "function", "staticmethod", "classmethod"):
                 return None
             node = callee.node
-            if not isinstance(node, ast.FunctionDef) or node.decorator_list:
+            if not isinstance(node, ast.FunctionDef) or (node.decorator_list and callee.kind in ("method", "function")):
                 return None
             a = node.args
-            if a.vararg or a.kwarg or a.kwonlyargs or a.defaults or a.posonlyargs or len(a.args) != 1:
+            if a.vararg or a.kwarg or a.kwonlyargs or a.defaults or a.posonlyargs:
                 return None
             body = self._strip_doc(node.body)
-            if not body or any(isinstance(x, (ast.Return, ast.Yield, ast.YieldFrom, ast.Await, ast.FunctionDef, ast.AsyncFunctionDef, ast.ClassDef, ast.Lambda, ast.Global, ast.Nonlocal)) for st in body for x in ast.walk(st)):
+            if not body or any(isinstance(x, (ast.Yield, ast.YieldFrom, ast.Await, ast.FunctionDef, ast.AsyncFunctionDef, ast.ClassDef, ast.Lambda, ast.Global, ast.Nonlocal)) for st in body for x in ast.walk(st)):
                 return None
-            return a.args[0].arg, body
+            rets = [x for st in body for x in ast.walk(st) if isinstance(x, ast.Return)]
+            if not allow_return_value and rets:
+                return None
+            params = [x.arg for x in a.args]
+            if any(isinstance(x, ast.Name) and isinstance(x.ctx, (ast.Store, ast.Del)) and x.id in params for st in body for x in ast.walk(st)):
+                return None
+            return params, body
 
         for f in list(self.functions.values()):
             if f.kind in ("module", "lambda") or not isinstance(f.node, (ast.FunctionDef, ast.AsyncFunctionDef)):
@@ -475,6 +482,41 @@ class Repo:
                     self.inlined.append(f"{f.qualname}: {callee.qualname}(...) -> expression")
                     return ast.copy_location(new, node)
 
+            def substitute(body, params, args):
+                sub = {p: a for p, a in zip(params, args) if not (isinstance(a, ast.Name) and a.id == p)}
+                new = copy.deepcopy(body)
+                if not sub:
+                    return new
+
+                class Sub(ast.NodeTransformer):
+                    def visit_Name(s2, n):
+                        return copy.deepcopy(sub[n.id]) if n.id in sub and isinstance(n.ctx, ast.Load) else n
+
+                return [Sub().visit(st) for st in new]
+
+            def try_inline(call: ast.Call, allow_return_value: bool):
+                if call.keywords or any(isinstance(x, ast.Starred) for x in call.args) or not all(Repo._simple_arg(x) for x in call.args):
+                    return None
+                callee, is_m, recv = resolve(call)
+                h = stmt_helper(callee, allow_return_value)
+                if h is None:
+                    return None
+                params, body = h
+                args = list(call.args)
+                if is_m and callee.kind in ("method", "classmethod"):
+                    args = [recv] + args
+                if len(params) != len(args):
+                    return None
+                hl = set()
+                for b in body:
+                    for x in ast.walk(b):
+                        if isinstance(x, ast.Name) and isinstance(x.ctx, (ast.Store, ast.Del)):
+                            hl.add(x.id)
+                free = {x.id for b in body for x in ast.walk(b) if isinstance(x, ast.Name)} - set(params) - hl
+                if (hl & flocals) or (free & flocals):
+                    return None
+                return callee, substitute(body, params, args)
+
             def inline_stmts(stmts):
                 out = []
                 for st in stmts:
@@ -485,20 +527,22 @@ class Repo:
                     if isinstance(st, ast.Try):
                         for h in st.handlers:
                             h.body = inline_stmts(h.body)
-                    if isinstance(st, ast.Expr) and isinstance(st.value, ast.Call) and not st.value.args and not st.value.keywords:
-                        callee, is_m, recv = resolve(st.value)
-                        h = stmt_helper(callee) if is_m else None
-                        if h is not None:
-                            selfname, body = h
-                            hl = set()
-                            for b in body:
-                                for x in ast.walk(b):
-                                    if isinstance(x, ast.Name) and isinstance(x.ctx, (ast.Store, ast.Del)):
-                                        hl.add(x.id)
-                            if not (hl & flocals) and selfname == recv.id:
-                                self.inlined.append(f"{f.qualname}: self.{callee.name}() -> {len(body)} statement(s)")
-                                out.extend(copy.deepcopy(body))
-                                continue
+                    if isinstance(st, ast.Expr) and isinstance(st.value, ast.Call):
+                        r = try_inline(st.value, False)
+                        if r is not None:
+                            callee, body = r
+                            self.inlined.append(f"{f.qualname}: {callee.qualname}(...) statement -> {len(body)} statement(s)")
+                            out.extend(body)
+                            continue
+                    if isinstance(st, ast.Return) and isinstance(st.value, ast.Call):
+                        r = try_inline(st.value, True)
+                        if r is not None:
+                            callee, body = r
+                            if not isinstance(body[-1], (ast.Return, ast.Raise)):
+                                body = body + [ast.Return(value=ast.Constant(None))]
+                            self.inlined.append(f"{f.qualname}: return {callee.qualname}(...) -> {len(body)} statement(s)")
+                            out.extend(body)
+                            continue
                     out.append(st)
                 return out
 
